@@ -326,3 +326,22 @@ extras.register(['C05'], regex_timeout_constant)
 extras.register(['C11', 'C10', 'C17'], module_state)
 extras.register(['C02', 'C16'], confinement)
 extras.register(['C20', 'C15', 'C16'], lexer_facts)
+
+
+LEAN_FILES = {'C01': 'Budget.lean', 'C03': 'Bound.lean', 'C10': 'Stack.lean'}
+
+
+def lean_lemmas(prop, tier, seed):
+    """the induction lemmas over the contracts (DESIGN 8), re-checked by `lean` in the thorough tier"""
+    import subprocess
+    f = LEAN_FILES.get(prop)
+    if f is None or tier != 'thorough':
+        return [], {}
+    root = os.path.dirname(os.path.dirname(os.path.abspath(__file__)))
+    p = subprocess.run(['lean', os.path.join(root, 'lean', f)], capture_output=True, text=True, timeout=600)
+    return [ob('%s:lean/%s:induction-lemma-type-checks' % (prop, f), [prop], p.returncode == 0,
+               {'lean_output': (p.stdout + p.stderr)[-500:]})], {
+        'assumed': ['lean/%s states the induction over an evaluation abstractly; its hypotheses are the per-function obligations discharged above (a lemma about the shape of the argument, never a claim by itself)' % f]}
+
+
+extras.register(['C01', 'C03', 'C10'], lean_lemmas)
